@@ -1,0 +1,38 @@
+//go:build verif
+
+package rtpconn
+
+// Export for the `chat` correspondence driver (C15): the state "the
+// websocket writer of a member has exited, the member has not been removed
+// yet".  Add-only; nothing here is compiled into the server.
+
+// KillWriter puts the connection in the state it is in after clientWriter
+// has returned (write error or write timeout) and before the reader notices:
+// writerDone is closed and nobody receives from writeCh any more.  In the
+// server writeCh then stays full once 100 messages are queued; here the
+// channel is replaced by one that is never ready, which is that state
+// without the 100 fillers.  What was queued before is returned (as Drain
+// would).  The client stays a member of its group until the harness ends
+// the connection (ErrorClose / Leave), as in the server until the reader
+// fails.  Idempotent.
+func (v *VerifClient) KillWriter() [][]byte {
+	select {
+	case <-v.c.writerDone:
+		return nil
+	default:
+	}
+	out := v.Drain()
+	v.c.writeCh = make(chan interface{})
+	close(v.c.writerDone)
+	return out
+}
+
+// WriterDead reports whether KillWriter has run.
+func (v *VerifClient) WriterDead() bool {
+	select {
+	case <-v.c.writerDone:
+		return true
+	default:
+		return false
+	}
+}
